@@ -417,6 +417,8 @@ def cases(tier, seed=0):
     out.append(EndToEnd(fn="gradient", **ee))
     out.append(EndToEnd(fn="laplacian", deriv_type="direct", **ee))
     out.append(EndToEnd(fn="deriv_density", orders=[1, 0, 1], **ee))
+    # mixed coordinate types with a two-column shell (the assembly path of the evaluation layer matters here)
+    out.append(EndToEnd(fn="gradient", ls=[1, 0], types="sc", Ks=[1, 1], Ms=[2, 1]))
     if tier == "thorough":
         out.append(EndToEnd(fn="hessian", **ee))
         out.append(EndToEnd(fn="hessian", deriv_type="direct", ls=[1, 2], types="cs", Ks=[1, 1], Ms=[1, 1]))
